@@ -155,6 +155,11 @@ class AppGen:
             lo, hi = r.choice(DZ)
             return f"dzaxial {q(lo)} {q(hi)}"
         if k == "dscale":
+            # exactness: every DeltaScale multiplies by a delta as small as 2^-8; three of them on one action reach 2^-24,
+            # which no longer adds exactly to values of magnitude 1 in f32 -> at most two per action block
+            self.dscale_count = getattr(self, "dscale_count", 0) + 1
+            if self.dscale_count > 2:
+                return "negate 0 1 0"
             return "dscale"
         if k == "accby":
             return f"accby {self.ref_action(ctx_actions)}"
@@ -194,6 +199,7 @@ class AppGen:
                     order.insert(r.randint(1, len(order)), r.choice(order))
                 for a in order:
                     lines.append(f"act {a}")
+                    self.dscale_count = 0
                     route = 0
                     if r.random() < p.route_p:
                         route = r.choice([1, 2, 3, 4, 5])
